@@ -29,7 +29,8 @@ mod native {
     }
     #[test]
     fn native_c18_create_url_many_hashes() {
-        let announces = ["http://tracker.example:6969/announce", "http://tracker.example/announce?passkey=AbC123", "http://T.example/A/b?x=1&y=2", "udp://t/a?"];
+        let announces = ["http://tracker.example:6969/announce", "http://tracker.example/announce?passkey=AbC123", "http://T.example/A/b?x=1&y=2", "udp://t/a?",
+                         "http://tracker.example/tracker/announce/", "http://tracker.example/a?dir=/x/"];
         let mut seen = [false; 256];
         let mut n = 0;
         for a in announces {
@@ -51,7 +52,7 @@ mod native {
                 n += 1;
             }
         }
-        assert!(n == 12000 && seen.iter().all(|s| *s), "not every byte value occurred in the hashes tried");
+        assert!(n == 18000 && seen.iter().all(|s| *s), "not every byte value occurred in the hashes tried");
     }
 
     // BOUNDED second line behind URL/TrackerClient::new/identity_as_given: the tracker client keeps the id and the torrent it is given
@@ -134,6 +135,7 @@ mod native {
             announce_case("?passkey=abc", *b"AAAAABBBBBCCCCC12345", 7).await;
             announce_case("/announce", *b"AAAAABBBBBCCCCC12345", 0).await;            // nothing left: `left=0` is still sent
             announce_case("/announce?x=0", *b"00000000000000000000", 0).await;
+            announce_case("/tracker/announce/", *b"AAAAABBBBBCCCCC12345", 9).await;         // a path ending in '/' is kept as it is
         });
     }
 }
